@@ -283,7 +283,7 @@ theorem groupRows_eq_nil_of_not_occurs (f : List Val → Except ErrKind (List (L
 
 /-! ### `Agg.feed` -/
 
-theorem Agg.feed_ok {a : Agg X S Rv} {ms : List TopMask} {repl : Option Int} {b : Batch} {rows : List X}
+theorem Agg.feed_ok {a : Agg X S Rv} {ms : List TopMask} {repl : Option Scalar} {b : Batch} {rows : List X}
     (h : a.feed ms repl b = .ok rows) :
     ∃ args args', a.inputs b = .ok args ∧ applyMasks repl args ms = .ok args' ∧ a.dec args' = .ok rows := by
   unfold Agg.feed at h
@@ -377,7 +377,7 @@ theorem sliceRows_rowSlicer_filter {a : Agg X S Rv} (hdec : RowWise a.dec) {sl :
 
 /-- **Row slicers, replace mode**: a batch in which the slice value occurs contributes *all* its
 selected rows, those outside the slice replaced; a batch in which it does not occur contributes nothing. -/
-theorem sliceRows_rowSlicer_replace {a : Agg X S Rv} {r : Int} {rr : X → X} (hdec : RowWiseRepl a.dec r rr)
+theorem sliceRows_rowSlicer_replace {a : Agg X S Rv} {r : Scalar} {rr : X → X} (hdec : RowWiseRepl a.dec r rr)
     {sl : Slicer} {f : List Val → Except ErrKind (List (List Int))} (hfn : sl.fn = .rows f)
     (hrep : sl.replace = some r)
     {b : Batch} {rows fed : List X} (hrows : a.rowsOf b = .ok rows) (v : List Int)
